@@ -604,6 +604,87 @@ func c19Rescanned(c *h.Ctx) {
 	}
 }
 
+// c19GeneratedIDs: the ids .keyvalue() gives the objects it generates are
+// numbered within the execution. Chained, the id of a pair of a pair is that
+// number times 10^10 plus an address distance (the distance is what the
+// recorded C16 finding is about and is left out here): the numbers are the same
+// in every execution, alone or next to others, however many objects a call
+// generates.
+func c19GeneratedIDs(c *h.Ctx) {
+	h.NoSharedAtomics = true
+	defer func() { h.NoSharedAtomics = false }()
+	for wi, width := range []int{5, 70, 200} {
+		if !c.Mine(wi) {
+			continue
+		}
+		m := map[string]any{}
+		for i := 0; i < width; i++ {
+			m[fmt.Sprintf("k%03d", i)] = float64(i)
+		}
+		doc := map[string]any{"w": m}
+		p := path.MustParse(`$.w.keyvalue().keyvalue().id`)
+		numbers := func() string {
+			items, err := p.Query(context.Background(), doc)
+			if err != nil {
+				return "error: " + err.Error()
+			}
+			var sb strings.Builder
+			for _, it := range items {
+				var id int64
+				switch x := it.(type) {
+				case int64:
+					id = x
+				case float64:
+					id = int64(x)
+				default:
+					return fmt.Sprintf("an id of type %T", it)
+				}
+				fmt.Fprintf(&sb, "%d ", id/10000000000)
+			}
+			return sb.String()
+		}
+		want := numbers()
+		seen := map[string]int{want: 1}
+		for r := 0; r < 4; r++ {
+			seen[numbers()]++
+		}
+		var mu sync.Mutex
+		var wg sync.WaitGroup
+		for g := 0; g < 4; g++ {
+			wg.Add(1)
+			go func() {
+				defer wg.Done()
+				for r := 0; r < 3; r++ {
+					got := numbers()
+					mu.Lock()
+					seen[got]++
+					mu.Unlock()
+				}
+			}()
+		}
+		wg.Wait()
+		c.Eval(17)
+		if len(seen) > 1 {
+			var first string
+			for s := range seen {
+				if s != want {
+					first = s
+				}
+			}
+			if len(first) > 300 {
+				first = first[:300] + "..."
+			}
+			w := want
+			if len(w) > 300 {
+				w = w[:300] + "..."
+			}
+			c.Violate("repeat-differs", h.F("kind", "generated-object-numbers", "width", fmt.Sprint(width)), fmt.Sprintf("$.w.keyvalue().keyvalue().id on an object of %d members, 17 executions (5 alone, 12 from 4 goroutines): the numbers of the generated objects (id / 10^10) were %s in the first and %s in another (%d different sequences)", width, w, first, len(seen)), h.Case{Kind: "generated-ids"})
+		} else {
+			c.Held("repeat-differs")
+		}
+	}
+}
+
 func deepCopyJSON(v any) any {
 	b, err := json.Marshal(v)
 	if err != nil {
@@ -1144,6 +1225,7 @@ func runC19(c *h.Ctx) {
 	c19CancelledFromOutside(c)
 	c19HugeArrays(c)
 	c19Rescanned(c)
+	c19GeneratedIDs(c)
 	c.Count("overlap.operation-pairs", overlapPairs)
 	c.Count("overlap.same-path-pairs", overlapSamePath)
 	c.Count("max:goroutines", int64(cf.n))
